@@ -208,6 +208,20 @@ fn canon(n: &Node, arow: i32, acol: i32) -> Node {
         _ => None,
     })
 }
+/// "2:0.5" — digits ':' digits followed by a decimal separator / exponent, or a row number off the grid: the lexer reads
+/// a row range and something else (character level; C09's restriction of the token-level tie)
+fn num_colon_num_text(s: &str) -> bool {
+    let c: Vec<char> = s.chars().collect();
+    for i in 1..c.len() {
+        if c[i] == ':' && c[i - 1].is_ascii_digit() {
+            let mut j = i + 1;
+            let mut v: u64 = 0;
+            while j < c.len() && c[j].is_ascii_digit() { v = (v * 10 + c[j] as u64 - 48).min(9_999_999); j += 1; }
+            if j > i + 1 && (v == 0 || v > 1048576 || (j < c.len() && matches!(c[j], '.' | ',' | 'e' | 'E'))) { return true; }
+        }
+    }
+    false
+}
 fn classify(n: &Node, dot: bool, lang: &str, pasted: &str, other: bool) -> Vec<String> {
     let mut pairs = vec![];
     moved_bad_pairs(n, &mut pairs);
@@ -271,7 +285,12 @@ impl<'a> Run<'a> {
         if self.samples.len() < 12 && self.cs.n % 1777 == 5 { self.samples.push(format!("{locale}/{lang} {text} cut {:?} => {pasted}", cx)); }
         // the debris a non-English lexer makes of an English error name depends on what follows it
         let tie = !(lang != "en" && contains(&n, &|x| matches!(x, Node::ErrorKind(_)) || array_has_error(x, false)))
-            && !contains(&n, &|x| matches!(x, Node::ParseErrorKind { .. }));
+            && !contains(&n, &|x| matches!(x, Node::ParseErrorKind { .. })) && !num_colon_num_text(&body)
+            // in a comma-decimal locale the hard-coded ',' is not a separator token at all (it continues or starts a
+            // number, or is illegal): character level, oracle only (class moved_argument_separator_hard_coded)
+            && !(!dot && contains(&n, &|x| match x {
+                Node::FunctionKind { args, .. } | Node::NamedFunctionKind { args, .. } | Node::LambdaCallKind { args, .. } => args.len() >= 2,
+                Node::LambdaDefKind { parameters, .. } => !parameters.is_empty(), _ => false }));
         if tie {
             self.cs.case(
                 &format!("P {} {} {} {} {} {} {} {} {} {} {} {} {}", lang, b(dot), cx.src_sheet, cx.row, cx.col, cx.area.0, cx.area.1, cx.area.2, cx.area.3, cx.tgt_sheet, cx.drow, cx.dcol, d),
